@@ -529,4 +529,48 @@ example :
     witnessSys.remote.get (.dest d) = some 1 ∧ Tags.get [(d, 0)] d = some 0 ∧ (0 : Commit) ≠ 1 ∧
     planT witnessSys [(d, 0)] (.deleteBranch d) = [] := by decide
 
+
+/-! ### The clone-snapshot premise of the pruning push (tied to the code by `harness/c08_faults.py`)
+
+Every plan of the model offers, in its `push --all --atomic --prune`, the remote's own refs as the clone saw them
+(`delRefs s.remote …`). That the clone really IS the remote at clone time — also when one of the read-side git
+commands of the job fails transiently — is what the fault block of the C08 tie checks on the real code. The two
+statements below say what that premise buys and that it is needed. -/
+
+/-- **A pruning push from a complete snapshot keeps every foreign ref**: if the clone holds every ref of the remote
+    that is not the robot's own with the remote's value, then — accepted or refused, whatever the server refuses —
+    the atomic pruning push leaves each of them exactly where it is. -/
+theorem C08_snapshot_keeps_foreign (g : Graph) (rej : Ref → Bool) (remote loc : RefMap)
+    (hsnap : ∀ r, r.robotOwned = false → ∀ c, remote.get r = some c → loc.get r = some c)
+    (r : Ref) (hr : r.robotOwned = false) (c : Commit) (hc : remote.get r = some c) :
+    (applyOp g rej remote (.pushAll loc true)).get r = some c := by
+  rw [applyOp_pushAll_eq]
+  split
+  · simp only [if_true]
+    exact hsnap r hr c hc
+  · exact hc
+
+/-- **…and the premise is needed** (what the seeded change C08-3 breaks): a clone taken from a stale mirror lacks a
+    branch that somebody created before the job even started; the pruning push deletes it. -/
+theorem C08_stale_clone_witness :
+    let g : Graph := (Graph.empty.addCommit []).1
+    let remote0 : RefMap := [(.dest (.dev 4 (some 3)), 0)]
+    let remote : RefMap := remote0.set (.other "feature/new") 0
+    remote.get (.other "feature/new") = some 0 ∧
+    (applyOp g (fun _ => false) remote (.pushAll remote0 true)).get (.other "feature/new") = none := by
+  decide
+
+example :
+    let remote : RefMap := [(.other "feature/new", 0), (.dest (.dev 4 (some 3)), 0), (.w (.dev 5 (some 1)) "bugfix/x", 0)]
+    let loc : RefMap := remote.del (.w (.dev 5 (some 1)) "bugfix/x")
+    (∀ r, r.robotOwned = false → ∀ c, remote.get r = some c → loc.get r = some c) ∧
+    (applyOp (Graph.empty.addCommit []).1 (fun _ => false) remote (.pushAll loc true)).get
+      (.w (.dev 5 (some 1)) "bugfix/x") = none := by
+  refine ⟨?_, by decide⟩
+  intro r hr c hc
+  rw [RefMap.get_del]
+  split
+  · next h => subst h; cases hr
+  · exact hc
+
 end BertE.C08
